@@ -7,6 +7,7 @@ import (
 	"math/rand"
 	"os"
 	"path/filepath"
+	"runtime"
 	"strconv"
 	"strings"
 	"sync"
@@ -277,6 +278,7 @@ type c06Case struct {
 func (e *c06Env) runCase(r *rand.Rand, kind string, n int, via Via, faults map[string]int) {
 	env := e.Env
 	env.FreshKeys(n)
+	runtime.GOMAXPROCS(procsMix[(n+len(faults)+int(via))%len(procsMix)])
 	addrs := make([]Addr, n)
 	for i := range addrs {
 		addrs[i] = Addr(r.Intn(2))
@@ -513,6 +515,7 @@ func C06(cfg Cfg) int {
 		"at the service boundary and through the handler after a wire round trip; then seeded multi-fault sequences, a handler-only matrix over a stub signer, a closed store, and a store closed under load (child process); distinct = (fault, kind, size, position, boundary) cells in which the fault fired"
 	run.Assume = []string{"faults are injected through exported interfaces and the verif-tagged storage hook; values outside the four defined rule results are not injected"}
 	r := cfg.Rand("c06")
+	defer runtime.GOMAXPROCS(runtime.GOMAXPROCS(0))
 	e, err := newC06Env(run, cfg, "c06")
 	if err != nil {
 		run.Inconclusive(err.Error())
